@@ -19,12 +19,12 @@ Concrete states `CSt V`: an integer valuation and a Boolean valuation.
 * every Boolean recorded in `m_bool_to_bools[b]` is implied by `b` (`FBN.BoolInvOf`);
 * none of the three components is the bottom of its lattice.
 
-Every operation re-establishes it (`C03.flatbool_inv_step`) — except the meet-like ones:
-`&`, `&=`, `&&` take the UNION of the unchanged-variable sets, which revives stale constraints of
-one operand through the marks of the other (`C03.flatbool_meet_sound_counterexample` in
-`Props/C03FlatBoolCex.lean`, replayed on the real code, see the comment there).  They are sound
-when both operands mark the same variables (`FBN.sameUnch`), and the history theorem
-(`C03.flatbool_history_sound_partial`) checks that condition along the run.
+Every operation re-establishes it (`C03.flatbool_inv_step`), the meet-like ones included since
+repo commit ef2ddd6: `&`, `&=`, `&&` unite the maps and INTERSECT the unchanged-variable sets, so
+that a constraint that is usable in the result is usable in the operand that recorded it.  Before
+that commit they took the union of the sets, which revived stale constraints of one operand
+through the marks of the other: `FBN.meetOld`, `C03.flatbool_meetOld_counterexample` in
+`Props/C03FlatBoolCex.lean` (found by this proof, replayed on the real code).
 
 Hypotheses on the base besides `LDom`'s laws: each transformer `f2` the product forwards to the base
 abstracts the concrete relation of the statement (`LDom.TSound`); `b := trunc(x)` does not call the
@@ -189,15 +189,20 @@ theorem C03.flatbool_join_sound (a b : FBN N) (s : CSt V) (h : a.γ s ∨ b.γ s
 theorem C03.flatbool_widen_sound (w2 : N.B → N.B → N.B) (hw : N.USound w2) (a b : FBN N) (s : CSt V)
     (h : a.γ s ∨ b.γ s) : (FBN.widenWith w2 a b).γ s := FBN.widenWith_sound hw h
 
+/-- `&`, `&=`, `&&` (after ef2ddd6) keep every state common to both operands -/
+theorem C03.flatbool_meet_sound (a b : FBN N) (s : CSt V) (ha : a.γ s) (hb : b.γ s) :
+    (FBN.meet a b).γ s ∧ (FBN.meetEq a b).γ s ∧ (FBN.narrow a b).γ s :=
+  ⟨FBN.meet_sound ha hb, FBN.meetEq_sound ha hb, FBN.narrow_sound ha hb⟩
+
 theorem C03.flatbool_make_top_bottom (s : CSt V) : (FBN.top : FBN N).γ s ∧ ¬ (FBN.bottom : FBN N).γ s :=
   ⟨FBN.γ_top s, FBN.not_γ_bottom s⟩
 
 /-! ## histories -/
 
-/-- every operation except `&`, `&=`, `&&` satisfies its soundness law (History.lean) on every
-    abstract value -/
-theorem C03.flatbool_step_sound (isBool : V → Bool) (op : FBN.Op N) (hop : op.BaseSound isBool)
-    (hl : op.isLower = false) : (op.toStep isBool).Sound FBN.γ := by
+/-- every operation of the language satisfies its soundness law (History.lean) on every abstract
+    value -/
+theorem C03.flatbool_step_sound (isBool : V → Bool) (op : FBN.Op N) (hop : op.BaseSound isBool) :
+    (op.toStep isBool).Sound FBN.γ := by
   cases op with
   | bcst d f2 x c => exact fun a s s' hg hr => FBN.assignBoolCst_sound hop hg hr
   | bvar d f2 x y neg => exact fun a s s' hg hr => FBN.assignBoolVar_sound hop hg hr
@@ -217,92 +222,50 @@ theorem C03.flatbool_step_sound (isBool : V → Bool) (op : FBN.Op N) (hop : op.
   | join d a b => exact fun a b s h => FBN.join_sound h
   | joinEq d a b => exact fun a b s h => FBN.joinEq_sound h
   | widen d a b w2 => exact fun a b s h => FBN.widenWith_sound hop h
-  | meet d a b => cases hl
-  | meetEq d a b => cases hl
-  | narrow d a b => cases hl
+  | meet d a b => exact fun a b s ha hb => FBN.meet_sound ha hb
+  | meetEq d a b => exact fun a b s ha hb => FBN.meetEq_sound ha hb
+  | narrow d a b => exact fun a b s ha hb => FBN.narrow_sound ha hb
   | copy d s => trivial
   | setTop d => exact fun a s s' _ _ => FBN.γ_top s'
   | setBottom d => trivial
 
-/-- **the invariant is preserved**: after every transformer the auxiliary components of the result
-    describe the new state; after `|`, `|=`, `||` they describe every state of either operand -/
-theorem C03.flatbool_inv_step (isBool : V → Bool) (op : FBN.Op N) (hop : op.BaseSound isBool)
-    (hl : op.isLower = false) :
+/-- **the invariant is preserved by every operation**: after a transformer the auxiliary components
+    of the result describe the new state; after `|`, `|=`, `||` they describe every state of either
+    operand; after `&`, `&=`, `&&` every state of both -/
+theorem C03.flatbool_inv_step (isBool : V → Bool) (op : FBN.Op N) (hop : op.BaseSound isBool) :
     match op.toStep isBool with
     | .trans _ t => ∀ a s s', FBN.γ a s → t.r s s' → FBN.Inv (t.f a) s'
     | .upper _ _ _ g => ∀ a b s, (FBN.γ a s ∨ FBN.γ b s) → FBN.Inv (g a b) s
+    | .lower _ _ _ g => ∀ a b s, FBN.γ a s → FBN.γ b s → FBN.Inv (g a b) s
     | _ => True := by
-  have h := C03.flatbool_step_sound isBool op hop hl
+  have h := C03.flatbool_step_sound isBool op hop
   cases op <;> simp only [FBN.Op.toStep] at h ⊢
   all_goals first
     | trivial
     | exact fun a s s' hg hr => (h a s s' hg hr).2
     | exact fun a b s hg => (h a b s hg).2
+    | exact fun a b s ha hb => (h a b s ha hb).2
 
-/-- one step from a pool whose values contain the collecting semantics, `&`-like steps included
-    when their operands mark the same variables unchanged -/
-theorem C03.flatbool_step_sound_on (isBool : V → Bool) (op : FBN.Op N) (hop : op.BaseSound isBool)
-    (p : Pool (FBN N)) (c : CPool (CSt V)) (hl : op.lowerOk p = true) (h : ∀ i s, c i s → FBN.γ (p i) s) :
-    ∀ i s, ((op.toStep isBool).coll c) i s → FBN.γ (((op.toStep isBool).run p) i) s := by
-  have lower : ∀ (d a b : Nat) (g : FBN N → FBN N → FBN N),
-      (∀ s, FBN.γ (p a) s → FBN.γ (p b) s → FBN.γ (g (p a) (p b)) s) →
-      ∀ i s, ((Step.lower d a b g : Step (FBN N) (CSt V)).coll c) i s →
-        FBN.γ (((Step.lower d a b g : Step (FBN N) (CSt V)).run p) i) s := by
-    intro d a b g hg i s hc
-    simp only [Step.coll, CPool.set, Step.run, Pool.set] at hc ⊢
-    split
-    · rename_i hi; simp only [hi, if_true] at hc
-      exact hg s (h a s hc.1) (h b s hc.2)
-    · rename_i hi; simp only [hi, if_false] at hc; exact h i s hc
-  cases hlo : op.isLower with
-  | false => exact C03.step_sound FBN.γ _ (C03.flatbool_step_sound isBool op hop hlo) p c h
-  | true =>
-    cases op <;> simp only [FBN.Op.isLower] at hlo <;> try (cases hlo)
-    · exact lower _ _ _ _ (fun s ha hb => (FBN.meet_sound_of_sameUnch hl ha hb).1)
-    · exact lower _ _ _ _ (fun s ha hb => (FBN.meet_sound_of_sameUnch hl ha hb).2.1)
-    · exact lower _ _ _ _ (fun s ha hb => (FBN.meet_sound_of_sameUnch hl ha hb).2.2)
-
-/-- full statement: history soundness for every history -/
-def C03.flatbool_history_sound_Statement : Prop :=
-  ∀ (V : Type) [DecidableEq V] (K : CSig V) (N : BNDom V K) (isBool : V → Bool) (ops : List (FBN.Op N)),
-    (∀ op ∈ ops, op.BaseSound isBool) → ∀ (p : Pool (FBN N)) (c : CPool (CSt V)),
-    (∀ i s, c i s → FBN.γ (p i) s) →
-    ∀ i s, collHist c (FBN.toHist isBool ops) i s → FBN.γ (runHist p (FBN.toHist isBool ops) i) s
-
-/-- **History soundness of `flat_boolean_numerical_domain`** over every lawful base, every pool,
-    history length and interleaving of Boolean statements, reductions, numerical statements, casts,
-    `-=`, `|`, `|=`, `||`, copies, `set_to_top`, `set_to_bottom`, and of `&`, `&=`, `&&` whenever the
-    history applies them to operands that mark the same variables unchanged (`FBN.lowerSafe`,
-    decidable along the run). -/
-theorem C03.flatbool_history_sound_partial (isBool : V → Bool) (ops : List (FBN.Op N))
-    (hops : ∀ op ∈ ops, op.BaseSound isBool) (p : Pool (FBN N)) (c : CPool (CSt V))
-    (hsafe : FBN.lowerSafe isBool p ops) (h0 : ∀ i s, c i s → FBN.γ (p i) s) :
-    ∀ i s, collHist c (FBN.toHist isBool ops) i s → FBN.γ (runHist p (FBN.toHist isBool ops) i) s := by
-  induction ops generalizing p c with
-  | nil => simpa [collHist, runHist, FBN.toHist] using h0
-  | cons op rest ih =>
-    simp only [collHist, runHist, FBN.toHist, List.map_cons, List.foldl_cons]
-    exact ih (fun x hx => hops x (List.mem_cons_of_mem _ hx)) _ _ hsafe.2
-      (C03.flatbool_step_sound_on isBool op (hops op List.mem_cons_self) p c hsafe.1 h0)
-
-/-- histories without `&`, `&=`, `&&` -/
+/-- **History soundness of `flat_boolean_numerical_domain`** over every lawful base: every pool,
+    history length and interleaving of Boolean statements and reductions, numerical statements,
+    casts, `-=`, `forget`, `project`, weak assignments, `|`, `|=`, `||`, `&`, `&=`, `&&`, copies,
+    `set_to_top`, `set_to_bottom`. -/
 theorem C03.flatbool_history_sound (isBool : V → Bool) (ops : List (FBN.Op N))
-    (hops : ∀ op ∈ ops, op.BaseSound isBool) (hl : ∀ op ∈ ops, op.isLower = false)
-    (p : Pool (FBN N)) (c : CPool (CSt V)) (h0 : ∀ i s, c i s → FBN.γ (p i) s) :
+    (hops : ∀ op ∈ ops, op.BaseSound isBool) (p : Pool (FBN N)) (c : CPool (CSt V))
+    (h0 : ∀ i s, c i s → FBN.γ (p i) s) :
     ∀ i s, collHist c (FBN.toHist isBool ops) i s → FBN.γ (runHist p (FBN.toHist isBool ops) i) s := by
   apply C03.history_sound FBN.γ _ _ p c h0
   intro st hst
   simp only [FBN.toHist, List.mem_map] at hst
   obtain ⟨op, hop, rfl⟩ := hst
-  exact C03.flatbool_step_sound isBool op (hops op hop) (hl op hop)
+  exact C03.flatbool_step_sound isBool op (hops op hop)
 
 /-- a slot that some execution reaches is never reported bottom -/
 theorem C03.flatbool_not_bottom_on_reachable (isBool : V → Bool) (ops : List (FBN.Op N))
     (hops : ∀ op ∈ ops, op.BaseSound isBool) (p : Pool (FBN N)) (c : CPool (CSt V))
-    (hsafe : FBN.lowerSafe isBool p ops) (h0 : ∀ i s, c i s → FBN.γ (p i) s) (i : Nat) (s : CSt V)
+    (h0 : ∀ i s, c i s → FBN.γ (p i) s) (i : Nat) (s : CSt V)
     (hc : collHist c (FBN.toHist isBool ops) i s) :
     (runHist p (FBN.toHist isBool ops) i).isBottom = false := by
   cases hb : (runHist p (FBN.toHist isBool ops) i).isBottom
   · rfl
-  · exact absurd (C03.flatbool_history_sound_partial isBool ops hops p c hsafe h0 i s hc)
-      (FBN.not_γ_of_isBottom hb s)
+  · exact absurd (C03.flatbool_history_sound isBool ops hops p c h0 i s hc) (FBN.not_γ_of_isBottom hb s)
